@@ -273,23 +273,39 @@ def expand_fn(src, qual, opts, sections, tline0, notes):
         elif s['kind'] in ('before', 'after'):
             # anchor = a line (stripped) of the function text
             offs = []
+            all_lines = []
             off = 0
             for ln in text.split('\n'):
                 if ln.strip() == s['anchor']:
                     offs.append((off, off + len(ln) + 1))
+                all_lines.append((ln.strip(), off, off + len(ln) + 1))
                 off += len(ln) + 1
             k = s.get('k')
-            if k is None:
-                if len(offs) != 1:
-                    raise GenError('%s %s: anchor %r found %d times (need 1)' % (src.rel, qual, s['anchor'], len(offs)))
+            a = None
+            if k is None and len(offs) == 1:
                 a = offs[0]
-            else:
-                if k > len(offs):
-                    raise GenError('%s %s: anchor %r occurrence %d not found' % (src.rel, qual, s['anchor'], k))
+            elif k is not None and k <= len(offs):
                 a = offs[k - 1]
+            else:
+                # ANCHOR LOST.  The annotation is proof help, not code: losing its anchor must not hide a change from
+                # the verifier.  (1) re-anchor on the unique most similar line inside the body; (2) otherwise keep the
+                # annotation at the previous insertion point of this function (so ghost variables stay declared and the
+                # assertions meet the changed code).  Both are recorded; the verifier then decides.
+                import difflib
+                body_lines = [(t, o0, o1) for (t, o0, o1) in all_lines if o0 > bo and o1 <= bc + 1 and t]
+                cand = difflib.get_close_matches(s['anchor'], [t for t, _, _ in body_lines], n=2, cutoff=0.72)
+                hits = [x for x in body_lines if cand and x[0] == cand[0]]
+                if cand and len(hits) == 1 and (len(cand) == 1 or difflib.SequenceMatcher(None, s['anchor'], cand[0]).ratio() - difflib.SequenceMatcher(None, s['anchor'], cand[1]).ratio() > 0.05):
+                    a = (hits[0][1], hits[0][2])
+                    notes.append({'id': 'ANCHOR-FUZZY', 'what': 'anchor %r re-attached to %r' % (s['anchor'], cand[0]), 'file': src.rel, 'fn': qual})
+                else:
+                    prev = [t[0] for t in inserts if len(t) == 3]
+                    fallback = max(prev) if prev else text.index('\n', bo) + 1
+                    a = (fallback, fallback)
+                    notes.append({'id': 'ANCHOR-LOST', 'what': 'anchor %r not found; annotation kept at the previous insertion point' % (s['anchor'],), 'file': src.rel, 'fn': qual})
             inserts.append((a[0] if s['kind'] == 'before' else a[1], sec_lines(s), 'line'))
     # assemble
-    inserts.sort(key=lambda t: t[0])
+    inserts = [t for _, t in sorted(enumerate(inserts), key=lambda it: (it[1][0], it[0]))]
     out = []  # (line_text, origin)
 
     def src_line_for(off):
@@ -301,7 +317,7 @@ def expand_fn(src, qual, opts, sections, tline0, notes):
     edits = [(t[0], t) for t in inserts]
     if sig_edit:
         edits.append((sig_edit[0], ('sig',) + sig_edit))
-    edits.sort(key=lambda t: t[0])
+    edits = [t for _, t in sorted(enumerate(edits), key=lambda it: (it[1][0], it[0]))]
     for off, e in edits:
         if e[0] == 'sig':
             pieces.append(('src', text[pos:e[1]], pos))
